@@ -1,13 +1,18 @@
 """C17 - the certificate store is bounded and never serves a certificate for other names.
 
-Technique: ``CertStore.get_cert`` / ``add_cert`` / ``expire`` / ``asterisk_forms`` are *interpreted from their AST* by a small concrete
-interpreter (``_helpers_B.MiniInterp``; anything it does not model is an ANALYSIS-ERROR) on an abstract store - entries are records,
-``dummy_cert`` / ``CertStoreEntry`` / ``_fix_legacy_sans`` are stubs that record their arguments - and the reachable state space over a
-small universe of requests and custom registrations is explored exhaustively (all histories, any length, capacity 1..2 substituted
-for ``self.STORE_CAP``).  On every transition the observable result is compared with the property:
+Technique: ``CertStore.get_cert`` / ``add_cert`` (and whatever they call: ``expire``, ``asterisk_forms``, extracted helpers, properties,
+module-level helpers) are *interpreted from their AST* by the general interpreter ``mitmlint/pyint.py`` on an abstract store: ``self`` is a
+record bound to the repository class whose ``certs`` / ``expire_queue`` are ordinary containers (initial value: what ``__init__`` assigns,
+evaluated), entries are records of ``CertStoreEntry`` compared by identity, ``cryptography.x509`` is a stand-in offering the general-name
+classes only, ``logging`` / ``warnings`` are null objects, ``dummy_cert`` / ``_fix_legacy_sans`` are stubs that record their arguments
+(bound by parameter name) - so the shape of the code (loops vs comprehensions vs ``next(filter(...))``, ``if`` vs ``match``, early returns,
+extracted helpers, logging, assertions, annotations) does not matter, only what it computes.  The reachable state space over a small
+universe of requests and custom registrations is explored exhaustively (all histories, any length, capacity 1..2 substituted for every read
+of ``STORE_CAP`` and of module constants it is a plain alias of).  On every transition the observable result is compared with the property:
   R17.1 bound: after every call at most CAP generated entries are referenced by ``certs`` and by ``expire_queue``; custom entries are never
-        dropped; ``STORE_CAP`` is a positive integer literal; only ``__init__`` / ``add_cert`` / ``get_cert`` / ``expire`` write ``certs`` /
-        ``expire_queue``.
+        dropped; ``STORE_CAP`` *evaluates* to a positive integer constant (literal, module constant, constant arithmetic) and is never
+        reassigned; ``certs`` / ``expire_queue`` are written only by ``__init__`` and by methods the explored operations run (intra-class
+        call graph from ``get_cert`` / ``add_cert``, so an extracted private helper is fine, a writer elsewhere - e.g. ``add_cert_file`` - is not).
   R17.2 names: the entry returned for (cn, sans) is a registered custom entry reachable from one of the requested names by the store's wildcard
         rules (and a matching custom entry always wins over generation), or a generated entry built by ``dummy_cert`` for exactly
         (cn, sans); asking again immediately returns the *same* entry and changes nothing (cache hit).
@@ -15,6 +20,8 @@ for ``self.STORE_CAP``).  On every transition the observable result is compared 
 Narrowed w.r.t. DESIGN: which of several *matching custom* certificates wins (CN forms before SAN forms before "*") and FIFO (vs e.g.
 LRU) eviction order are not required by the property statement and are therefore not enforced; the observed order is printed as a note.
 Not decided: the X.509 content of generated certificates (C16), thread-safety.
+``_StoreInterp`` carries three performance work-arounds for pyint (per-call ``ast.unparse`` of the callee, per-call generator scan of the
+callee body, per-read module scan for builtin names); they transcribe the base behaviour and are candidates for pyint itself.
 """
 
 from __future__ import annotations
@@ -28,9 +35,13 @@ from ..model import call_name
 from ..model import enclosing_func
 from ..model import last_attr
 from ..model import walk_in_order
+from ..pyint import ClassRef
+from ..pyint import Interp
+from ..pyint import Raised
+from ..pyint import Rec
+from ..pyint import _Return
 from ..selftest import Mutant
 from ._helpers_B import ceval
-from ._helpers_B import MiniInterp
 from ._helpers_B import NotAnAtom
 
 PROP = "C17"
@@ -51,10 +62,14 @@ F = "mitmproxy/certs.py"
 
 
 class GN:
-    """x509.GeneralName stand-in"""
+    """x509.GeneralName stand-in (subclasses per kind below: class patterns / isinstance decide on the Python class)"""
 
-    def __init__(self, kind, value):
-        self.kind, self.value = kind, value
+    kind = "?"
+
+    def __init__(self, value, _kind=None):
+        self.value = value
+        if _kind is not None:
+            self.kind = _kind
 
     def __eq__(self, o):
         return isinstance(o, GN) and (self.kind, self.value) == (o.kind, o.value)
@@ -66,36 +81,73 @@ class GN:
         return f"{self.kind}:{self.value}"
 
 
-def DNS(v):
-    return GN("DNS", v)
+def _gn_class(name, kind):
+    return type(name, (GN,), {"kind": kind, "__doc__": f"x509.{name} stand-in"})
 
 
-def IP(v):
-    return GN("IP", v)
+_GN_CLASSES = {n: _gn_class(n, k) for n, k in (("DNSName", "DNS"), ("IPAddress", "IP"), ("UniformResourceIdentifier", "URI"), ("RFC822Name", "EMAIL"),
+                                                 ("DirectoryName", "DIR"), ("RegisteredID", "RID"), ("OtherName", "OTHER"))}
+DNS = _GN_CLASSES["DNSName"]
+IP = _GN_CLASSES["IPAddress"]
+URI = _GN_CLASSES["UniformResourceIdentifier"]
 
 
-class Names:
+class Names(tuple):
     """x509.GeneralNames stand-in (hashable, iterable, equality by content; *not* equal to a plain tuple/list)"""
 
-    _mini_iterable = True
-
-    def __init__(self, items=()):
-        self.items = tuple(items)
-
-    def __iter__(self):
-        return iter(self.items)
-
-    def __len__(self):
-        return len(self.items)
+    def __new__(cls, items=()):
+        return tuple.__new__(cls, tuple(items))
 
     def __eq__(self, o):
-        return isinstance(o, Names) and self.items == o.items
+        return isinstance(o, Names) and tuple.__eq__(self, o)
+
+    def __ne__(self, o):
+        return not self.__eq__(o)
 
     def __hash__(self):
-        return hash(("Names", self.items))
+        return hash(("Names", tuple.__hash__(self)))
 
     def __repr__(self):
-        return f"Names{list(self.items)}"
+        return f"Names{list(self)}"
+
+
+class _X509Stub:
+    """stand-in for the trusted `cryptography.x509` module: only the general-name vocabulary (everything else is C16's business)"""
+
+    GeneralName = GN
+    GeneralNames = Names
+
+    def __getattr__(self, name):
+        if name in _GN_CLASSES:
+            return _GN_CLASSES[name]
+        raise AttributeError(name)
+
+
+def _null(*a, **k):
+    return None
+
+
+_null._c17_transparent = True  # type: ignore[attr-defined]
+
+
+class _NullLog:
+    """stand-in for the `logging` module / a logger / `warnings`: nothing is enabled, every call is a no-op (whatever is passed)"""
+
+    DEBUG, INFO, WARNING, ERROR, CRITICAL = 10, 20, 30, 40, 50
+
+    def getLogger(self, *a, **k):
+        return self
+
+    def isEnabledFor(self, *a, **k):
+        return False
+
+    def getEffectiveLevel(self):
+        return self.CRITICAL + 10
+
+    def __getattr__(self, name):
+        if name in ("debug", "info", "warning", "warn", "error", "exception", "log", "critical"):
+            return _null
+        raise AttributeError(name)
 
 
 class CertRec:
@@ -103,143 +155,288 @@ class CertRec:
         self.cn, self.altnames, self.gen_args = cn, Names(altnames), gen_args
 
 
-class Entry:
-    _n = 0
+ENTRY = "CertStoreEntry"
 
-    def __init__(self, cert, label=None):
-        self.cert = cert
-        Entry._n += 1
-        self.label = label or f"gen#{Entry._n}"
 
-    def __repr__(self):
-        return self.label
+def is_entry(v):
+    return isinstance(v, Rec) and v.isa(ENTRY) and isinstance(v.__dict__.get("cert"), CertRec)
+
+
+def label(e):
+    return e._name
+
+
+def custom_entry(cert, name):
+    return Rec(ENTRY, _impl=(F, ENTRY), _name=name, cert=cert, privatekey=("opaque", "custom key"), chain_file=None, chain_certs=[])
 
 
 class Store:
-    def __init__(self, cap):
-        self.certs, self.queue, self.cap = {}, [], cap
+    def __init__(self, cap, certs=None, queue=None):
+        self.certs, self.queue, self.cap = {} if certs is None else certs, [] if queue is None else queue, cap
 
     def copy(self):
-        s = Store(self.cap)
-        s.certs, s.queue = dict(self.certs), list(self.queue)
-        return s
+        return Store(self.cap, type(self.certs)(self.certs), type(self.queue)(self.queue))
 
     def canon(self):
         order = {}
-        for e in self.queue + [v for _, v in sorted(self.certs.items(), key=lambda kv: repr(kv[0]))]:
+        for e in list(self.queue) + [v for _, v in sorted(self.certs.items(), key=lambda kv: repr(kv[0]))]:
             if e.cert.gen_args is not None and id(e) not in order:
                 order[id(e)] = f"g{len(order)}:{e.cert.gen_args!r}"
-        lab = lambda e: order.get(id(e), e.label)  # noqa: E731
+        lab = lambda e: order.get(id(e), label(e))  # noqa: E731
         return (tuple(sorted((repr(k), lab(v)) for k, v in self.certs.items())), tuple(lab(e) for e in self.queue))
 
 
-OPAQUE = ("self.default_privatekey", "self.default_ca._cert", "self.default_chain_file", "self.default_chain_certs")
+OPAQUE_KEY = ("opaque", "self.default_privatekey")
+OPAQUE_CA = ("opaque", "self.default_ca._cert")
+
+
+class _StoreInterp(Interp):
+    """pyint with (a) the capacity under exploration substituted for every read of the class attribute ``CertStore.STORE_CAP``
+    (``self.`` / ``cls.`` / ``CertStore.`` / ``type(self).``), (b) the lazy builtins ``filter`` / ``map`` and generator expressions as
+    iterators (so ``next(filter(...), None)``, ``next((k for k in ... if ...), None)`` and a for/break loop are the same lookup),
+    (c) calls of the null logger transparent whatever is passed (entries are abstract records)."""
+
+    cap = None
+    _plain: dict = {}  # id(function node) -> (node, True if neither generator nor coroutine): the scan of Interp.call_func, done once
+    _builtin_names: dict = {}
+
+    # -- performance work-arounds (semantics identical to the base class; see the report / module docstring) ------------------------
+    def apply(self, f, args, kwargs, depth, node=None):
+        # the base renders `node` to text on every call just for error messages: render only when there is a message
+        try:
+            return Interp.apply(self, f, args, kwargs, depth, None)
+        except AnalysisError as ex:
+            if node is not None and " at ?" in str(ex):
+                raise AnalysisError(str(ex).replace(" at ?", " at " + norm(node)[:80]))
+            raise
+
+    def ev_call(self, e, env, mod, depth):
+        # Interp.ev_call minus the textual `externals` lookup, which unparses the callee on every call (no externals are used here:
+        # stubs are bound by name through `overrides`).  Special callables are handed back to the base class.
+        if self.externals:
+            return Interp.ev_call(self, e, env, mod, depth)
+        f = self.ev(e.func, env, mod, depth)
+        special = f[0] if isinstance(f, tuple) and f and isinstance(f[0], str) and f[0].startswith("$") else None
+        if special not in (None, "$builtin", "$dictmethod"):
+            return Interp.ev_call(self, e, env, mod, depth)  # $typing / $exc: the base class re-evaluates the (pure) callee expression and dispatches
+        args = self.elts(e.args, env, mod, depth)
+        kwargs = {}
+        for k in e.keywords:
+            if k.arg is None:
+                kwargs.update(self.ev(k.value, env, mod, depth))
+            else:
+                kwargs[k.arg] = self.ev(k.value, env, mod, depth)
+        if special == "$builtin":
+            return self.builtin(f[1], args, kwargs, e, env, mod, depth)
+        if special == "$dictmethod":
+            return self.dictmethod(f[1], f[2], args, kwargs)
+        return self.apply(f, args, kwargs, depth, e)
+
+    def call_func(self, f, args, kwargs, depth):
+        # the base scans the whole function for yield / await on *every* call; the verdict per function node is cached and plain
+        # functions are bound and run by `_run_plain` (a transcription of the base binding rules)
+        node = f.node
+        if isinstance(node, ast.Lambda):
+            return Interp.call_func(self, f, args, kwargs, depth)
+        hit = self._plain.get(id(node))
+        if hit is None or hit[0] is not node:
+            plain = not any(isinstance(n, (ast.Await, ast.Yield, ast.YieldFrom)) for n in ast.walk(node))
+            hit = self._plain[id(node)] = (node, plain)
+        if not hit[1]:
+            return Interp.call_func(self, f, args, kwargs, depth)
+        return self._run_plain(f, args, kwargs, depth)
+
+    def _run_plain(self, f, args, kwargs, depth):
+        node = f.node
+        a = node.args
+        env = {"$closure": f.closure} if f.closure else {}
+        params = [p.arg for p in a.posonlyargs + a.args]
+        args = list(args)
+        if f.bound is not None and params and params[0] in ("self", "cls"):
+            args = [f.bound] + args
+            env["$self"] = f.bound
+            env["$fn"] = node
+        for p, v in zip(params, args):
+            env[p] = v
+        extra = args[len(params):]
+        if a.vararg:
+            env[a.vararg.arg] = tuple(extra)
+        elif extra:
+            raise Raised("TypeError", "too many positional arguments")
+        dnames = params[len(params) - len(a.defaults):] if a.defaults else []
+        for p, d in zip(dnames, a.defaults):
+            if p not in env and p not in kwargs:
+                env[p] = self.ev(d, {}, f.mod, depth)
+        for p, d in zip(a.kwonlyargs, a.kw_defaults):
+            if p.arg not in kwargs and d is not None:
+                env[p.arg] = self.ev(d, {}, f.mod, depth)
+        known = set(params) | {p.arg for p in a.kwonlyargs}
+        rest = {}
+        for k, v in kwargs.items():
+            if k in known:
+                env[k] = v
+            else:
+                rest[k] = v
+        if a.kwarg:
+            env[a.kwarg.arg] = rest
+        elif rest:
+            raise Raised("TypeError", f"unexpected keyword {list(rest)}")
+        for p in params + [p.arg for p in a.kwonlyargs]:
+            if p not in env:
+                raise Raised("TypeError", f"missing argument {p}")
+        try:
+            self.block(node.body, env, f.mod, depth)
+        except _Return as r:
+            return r.value
+        return None
+
+    def class_attr(self, cref, attr, depth):
+        if self.cap is not None and attr == CAP_ATTR and cref.node.name == "CertStore" and cref.mod.rel == F:
+            return self.cap
+        return Interp.class_attr(self, cref, attr, depth)
+
+    def name(self, ident, env, mod, depth, node):
+        if ident in env:
+            return env[ident]
+        clo = env.get("$closure")
+        while clo is not None and ident not in clo:
+            clo = clo.get("$closure")
+        if clo is None:
+            # builtins: the base looks through the module's definitions / imports / assignments on every read; the verdict is cached
+            key = (mod.rel, ident)
+            hit = self._builtin_names.get(key)
+            if hit is not None and hit[0] is mod:
+                return hit[1]
+            if (mod.rel, ident) not in self.overrides and mod.get(ident) is None and ident not in mod.imports and not mod.assigns(ident):
+                if ident in ("filter", "map"):  # lazy builtins pyint does not know: handled in `builtin` below
+                    v = ("$builtin", ident)
+                else:
+                    v = Interp.name(self, ident, env, mod, depth, node)
+                self._builtin_names[key] = (mod, v)
+                return v
+        return Interp.name(self, ident, env, mod, depth, node)
+
+    def builtin(self, name, args, kwargs, e, env, mod, depth):
+        if name in ("filter", "map") and not kwargs and len(args) >= 2:
+            f = args[0]
+            seqs = [self.iterate(a, e) for a in args[1:]]
+            if name == "filter":
+                if len(seqs) != 1:
+                    raise Raised("TypeError")
+                keep = (lambda x: self.truthy(x)) if f is None else (lambda x: self.truthy(self.apply(f, [x], {}, depth, e)))
+                return iter([x for x in seqs[0] if keep(x)])  # eager on a pure predicate: same elements, same order
+            return iter([self.apply(f, list(xs), {}, depth, e) for xs in zip(*seqs)])
+        return Interp.builtin(self, name, args, kwargs, e, env, mod, depth)
+
+    def comp(self, e, env, mod, depth):
+        out = Interp.comp(self, e, env, mod, depth)
+        return iter(out) if isinstance(e, ast.GeneratorExp) else out
+
+    def native_call(self, f, args, kwargs, where):
+        if getattr(f, "_c17_transparent", False):
+            return None
+        if getattr(f, "__self__", None) is dict and getattr(f, "__name__", "") == "fromkeys":  # container constructor: entries pass through
+            return dict.fromkeys(*args, **kwargs)
+        return Interp.native_call(self, f, args, kwargs, where)
+
+
+CAP_ATTR = "STORE_CAP"
+
+
+def _trusted():
+    import collections
+    import ipaddress
+    import types
+
+    log = _NullLog()
+    return {"cryptography.x509": _X509Stub(), "cryptography": types.SimpleNamespace(x509=_X509Stub()), "logging": log, "warnings": log,
+            "collections": collections, "ipaddress": ipaddress, "itertools": __import__("itertools")}
+
+
+def _bind_call(fn, args, kwargs, what):
+    """argument values of a stubbed repository function by parameter name (positional or keyword call, defaults = absent)"""
+    params = [a.arg for a in fn.args.posonlyargs + fn.args.args]
+    if len(args) > len(params):
+        raise AnalysisError(f"{what}: more positional arguments than parameters")
+    out = dict(zip(params, args))
+    for k, v in kwargs.items():
+        if k in out or k not in params + [a.arg for a in fn.args.kwonlyargs]:
+            raise AnalysisError(f"{what}: keyword {k} does not bind to a parameter")
+        out[k] = v
+    return out
 
 
 class Machine:
-    """Interprets CertStore methods on a Store."""
+    """Interprets CertStore methods (pyint) on a Store: ``self`` is a record bound to the repository class whose ``certs`` /
+    ``expire_queue`` are the store's containers; certificate generation is stubbed."""
+
+    _interps: dict = {}
+
+    @classmethod
+    def interp(cls, ctx, cap):
+        """one interpreter per (program, capacity): the stubs and the substituted capacity do not depend on the store state"""
+        key = (id(ctx.model), cap)
+        hit = cls._interps.get(key)
+        if hit is not None and hit[0] is ctx.model:
+            return hit[1]
+        it = _StoreInterp(ctx.model, trusted_modules=_trusted(), max_depth=16, max_steps=200000)
+        it.cap = cap
+        dc = ctx.func(F, "dummy_cert")
+
+        def dummy_cert(*args, **kwargs):
+            a = _bind_call(dc, args, kwargs, "dummy_cert call")
+            missing = [p for p in ("privkey", "cacert", "commonname", "sans") if p not in a]
+            if missing:
+                raise AnalysisError(f"dummy_cert call: parameter(s) {missing} not bound (signature changed?)")
+            if a["privkey"] != OPAQUE_KEY or a["cacert"] != OPAQUE_CA:
+                raise AnalysisError("dummy_cert is not called with the store's CA key / certificate")
+            sans = a["sans"]
+            if not isinstance(sans, (Names, list, tuple)) or not all(isinstance(x, GN) for x in sans):
+                raise AnalysisError(f"dummy_cert called with sans = {sans!r} (not general names)")
+            return CertRec(cert_cn_of(ctx, a["commonname"]), tuple(sans), gen_args=(a["commonname"], Names(sans)))
+
+        def fix_legacy_sans(sans):
+            return Names(sans)
+
+        it.overrides[(F, "dummy_cert")] = dummy_cert
+        it.overrides[(F, "_fix_legacy_sans")] = fix_legacy_sans
+        for nm in _cap_aliases(ctx):
+            it.overrides[(F, nm)] = cap
+        if len(cls._interps) > 8:
+            cls._interps.clear()
+        cls._interps[key] = (ctx.model, it)
+        return it
 
     def __init__(self, ctx, store):
+        import types
+
         self.ctx, self.m, self.store = ctx, ctx.model, store
-        self.fns = {n: ctx.func(F, "CertStore." + n) for n in ("get_cert", "add_cert", "expire", "asterisk_forms")}
-        self.depth = 0
+        self.it = self.interp(ctx, store.cap)
+        self.rec = Rec("CertStore", _impl=(F, "CertStore"), certs=store.certs, expire_queue=store.queue, default_privatekey=OPAQUE_KEY,
+                       default_ca=types.SimpleNamespace(_cert=OPAQUE_CA), default_chain_file=None, default_chain_certs=[],
+                       default_crl=b"", dhparams=b"")
 
-    # -- calling a repo function
-    def call(self, name, args, self_bound=True):
-        fn = self.fns[name]
-        self.depth += 1
-        if self.depth > 12:
-            raise AnalysisError("CertStore interpretation: recursion too deep")
+    def call(self, name, args):
+        import collections
+
+        self.it.steps = 0
+        del self.it.writes[:]
         try:
-            params = [a.arg for a in fn.args.args]
-            static = any(last_attr(d) == "staticmethod" for d in fn.decorator_list)
-            env = {}
-            if not static:
-                params = params[1:]
-                env["self"] = self
-            if fn.args.vararg:
-                env.update(dict(zip(params, args[: len(params)])))
-                env[fn.args.vararg.arg] = tuple(args[len(params):])
-            else:
-                defaults = fn.args.defaults
-                vals = list(args)
-                need = len(params) - len(vals)
-                if need > len(defaults) or need < 0:
-                    raise AnalysisError(f"CertStore.{name}: call arity not modelled")
-                for d in defaults[len(defaults) - need:] if need else []:
-                    vals.append(ceval(d, {}, None, name))
-                env.update(dict(zip(params, vals)))
-            mi = MiniInterp(atom=self.atom, what=f"CertStore.{name}", store=self.store_target, eval_calls=True)
-            return mi.run(fn, env)
-        finally:
-            self.depth -= 1
-
-    # -- stores
-    def store_target(self, target, value, env):
-        if isinstance(target, ast.Attribute) and attr_chain(target) == "self.certs":
-            if not isinstance(value, dict):
-                raise AnalysisError("self.certs rebound to a non-dict")
-            self.store.certs = value
-        elif isinstance(target, ast.Subscript) and attr_chain(target.value) == "self.certs":
-            self.store.certs[ceval(target.slice, env, self.atom, "certs key")] = value
-        elif isinstance(target, ast.Attribute) and attr_chain(target) == "self.expire_queue":
-            if not isinstance(value, list):
-                raise AnalysisError("self.expire_queue rebound to a non-list")
-            self.store.queue = value
-        else:
-            raise AnalysisError(f"CertStore: store to {norm(target)} not modelled")
-
-    # -- loads and calls
-    def atom(self, node, env):
-        if isinstance(node, ast.Attribute):
-            ch = attr_chain(node)
-            if ch == "self.certs":
-                return self.store.certs
-            if ch == "self.expire_queue":
-                return self.store.queue
-            if ch in ("self.STORE_CAP", "CertStore.STORE_CAP"):
-                return self.store.cap
-            if ch in OPAQUE:
-                return ("opaque", ch)
-            if ch.startswith("self."):
-                raise AnalysisError(f"CertStore: read of {ch} not modelled")
-            base = ceval(node.value, env, self.atom, "attribute base")
-            if isinstance(base, (GN, CertRec, Entry)) and node.attr in ("value", "cn", "altnames", "cert") and hasattr(base, node.attr):
-                return getattr(base, node.attr)
-            raise AnalysisError(f"CertStore: attribute {norm(node)} on {type(base).__name__} not modelled")
-        if isinstance(node, ast.Call):
-            name = call_name(node)
-            ev = lambda x: ceval(x, env, self.atom, "argument")  # noqa: E731
-            if name == "isinstance" and len(node.args) == 2:
-                obj = ev(node.args[0])
-                cls = norm(node.args[1])
-                table = {"str": lambda o: isinstance(o, str), "x509.DNSName": lambda o: isinstance(o, GN) and o.kind == "DNS",
-                         "x509.IPAddress": lambda o: isinstance(o, GN) and o.kind == "IP", "x509.GeneralNames": lambda o: isinstance(o, Names),
-                         "list": lambda o: isinstance(o, list)}
-                if cls not in table:
-                    raise AnalysisError(f"CertStore: isinstance(..., {cls}) not modelled")
-                return table[cls](obj)
-            if name in ("self.asterisk_forms", "CertStore.asterisk_forms"):
-                return self.call("asterisk_forms", [ev(a) for a in node.args])
-            if name == "self.expire":
-                return self.call("expire", [ev(a) for a in node.args])
-            if name == "_fix_legacy_sans" and len(node.args) == 1:
-                return Names(ev(node.args[0]))
-            if name == "dummy_cert":
-                if node.keywords or len(node.args) != 6:
-                    raise AnalysisError("dummy_cert call shape changed (6 positional arguments modelled)")
-                a = [ev(x) for x in node.args]
-                if a[0] != ("opaque", "self.default_privatekey") or a[1] != ("opaque", "self.default_ca._cert"):
-                    raise AnalysisError("dummy_cert is not called with the store's CA key / certificate")
-                return CertRec(cert_cn_of(self.ctx, a[2]), tuple(a[3]), gen_args=(a[2], Names(a[3])))
-            if name == "CertStoreEntry":
-                kw = {k.arg: ev(k.value) for k in node.keywords}
-                pos = [ev(x) for x in node.args]
-                cert = kw.get("cert", pos[0] if pos else None)
-                if not isinstance(cert, CertRec):
-                    raise AnalysisError("CertStoreEntry(cert=...) shape not modelled")
-                return Entry(cert)
-        raise NotAnAtom
+            result = self.it.method(self.rec, name, *args)
+        except Raised as r:
+            raise AnalysisError(f"CertStore.{name} raises {r.name} on the abstract input {args!r} (not modelled)")
+        except RecursionError:
+            raise AnalysisError(f"CertStore.{name}: interpretation recursion too deep")
+        certs, queue = self.rec.__dict__.get("certs"), self.rec.__dict__.get("expire_queue")
+        if not isinstance(certs, dict):
+            raise AnalysisError(f"self.certs rebound to a non-dict ({type(certs).__name__})")
+        if not isinstance(queue, (list, collections.deque)):
+            raise AnalysisError(f"self.expire_queue rebound to a {type(queue).__name__} (list / deque modelled)")
+        bad = [v for v in list(certs.values()) + list(queue) if not is_entry(v)]
+        if bad:
+            raise AnalysisError(f"the store holds {bad[0]!r}, which is not a certificate entry")
+        self.store.certs, self.store.queue = certs, queue
+        return result
 
 
 _CN_CACHE: dict = {}
@@ -249,8 +446,8 @@ def cert_cn_of(ctx, commonname):
     """The CN the generated certificate really carries (what ``Cert.cn`` reads back), derived from dummy_cert's own AST: the value and the
     guards of its ``NameAttribute(NameOID.COMMON_NAME, ...)`` - today: present only when ``commonname is not None and len(commonname) < 64``."""
     key = (id(ctx.model), commonname)
-    if key in _CN_CACHE:
-        return _CN_CACHE[key]
+    if key in _CN_CACHE and _CN_CACHE[key][0] is ctx.model:
+        return _CN_CACHE[key][1]
     fn = ctx.func(F, "dummy_cert")
     sites = [c for c in walk_in_order(fn) if isinstance(c, ast.Call) and last_attr(c.func) == "NameAttribute" and c.args and attr_chain(c.args[0]).endswith("COMMON_NAME")]
     if len(sites) != 1 or len(sites[0].args) != 2:
@@ -285,7 +482,7 @@ def cert_cn_of(ctx, commonname):
             raise AnalysisError(f"dummy_cert: the CN attribute is added inside a {type(p).__name__} (not modelled)")
         child, p = p, getattr(p, "_parent", None)
     val = ceval(site.args[1], {}, atom, "dummy_cert CN value") if present else None
-    _CN_CACHE[key] = val
+    _CN_CACHE[key] = (ctx.model, val)
     return val
 
 
@@ -336,9 +533,43 @@ CUSTOMS = [
 ]
 
 
+def _initial_store(ctx, cap):
+    """The store as ``CertStore.__init__`` leaves it: the values it assigns to ``self.certs`` / ``self.expire_queue`` are evaluated
+    (``{}`` / ``dict()`` / ``[]`` / ``list()`` / ``collections.deque()`` ...); anything but empty containers is not modelled."""
+    import collections
+
+    init = ctx.model.method(F, "CertStore", "__init__")
+    ctx.require(init is not None, "CertStore.__init__ vanished")
+    it = Interp(ctx.model, trusted_modules=_trusted())
+    got = {}
+    for n in ast.walk(init[1]):
+        tv = []
+        if isinstance(n, ast.Assign):
+            if any(isinstance(t, (ast.Tuple, ast.List)) for t in n.targets) and isinstance(n.value, (ast.Tuple, ast.List)) and all(isinstance(t, (ast.Tuple, ast.List)) and len(t.elts) == len(n.value.elts) for t in n.targets):
+                tv = [(x, v) for t in n.targets for x, v in zip(t.elts, n.value.elts)]
+            else:
+                tv = [(t, n.value) for t in n.targets]
+        elif isinstance(n, ast.AnnAssign) and n.value is not None:
+            tv = [(n.target, n.value)]
+        for t, v in tv:
+            ch = attr_chain(t)
+            if ch in ("self.certs", "self.expire_queue"):
+                ctx.require(ch not in got, f"CertStore.__init__ assigns {ch} more than once (initial store not modelled)")
+                try:
+                    got[ch] = it.ev(v, {}, init[0], 0)
+                except Raised as r:
+                    raise AnalysisError(f"CertStore.__init__: {ch} = {norm(v)} raises {r.name} (initial store not modelled)")
+    ctx.require(set(got) == {"self.certs", "self.expire_queue"}, f"CertStore.__init__ does not assign both self.certs and self.expire_queue: {sorted(got)}")
+    certs, queue = got["self.certs"], got["self.expire_queue"]
+    ctx.require(isinstance(certs, dict) and not certs, f"CertStore.__init__ leaves self.certs = {certs!r} (an empty dict is modelled)")
+    ctx.require(isinstance(queue, (list, collections.deque)) and not queue, f"CertStore.__init__ leaves self.expire_queue = {queue!r} (an empty list / deque is modelled)")
+    ctx.require(not isinstance(queue, collections.deque) or queue.maxlen is None, "expire_queue is a bounded deque (silent drops are not modelled)")
+    return Store(cap, certs, queue)
+
+
 def _explore(ctx, cap, requests, customs):
-    centries = [(Entry(CertRec(cn, alt), label), names) for label, cn, alt, names in customs]
-    init = (Store(cap), {})  # (interpreted store, reference registry key -> entry)
+    centries = [(custom_entry(CertRec(cn, alt), lab), names) for lab, cn, alt, names in customs]
+    init = (_initial_store(ctx, cap), {})  # (interpreted store, reference registry key -> entry)
     seen = {(init[0].canon(), ())}
     todo = [init]
     viol = {"bound": [], "lost": [], "names": [], "cache": []}
@@ -355,7 +586,7 @@ def _explore(ctx, cap, requests, customs):
             mach = Machine(ctx, s2)
             n_trans += 1
             ctx.cells += 1
-            step = f"{op}({centries[i][0] if op == 'add' else requests[i]})"
+            step = f"{op}({label(centries[i][0]) if op == 'add' else requests[i]})"
             h2 = hist + [step]
             if op == "add":
                 entry, names = centries[i]
@@ -365,24 +596,24 @@ def _explore(ctx, cap, requests, customs):
             else:
                 cn, sans = requests[i]
                 got = mach.call("get_cert", [cn, list(sans)])
-                if not isinstance(got, Entry):
+                if not is_entry(got):
                     raise AnalysisError(f"get_cert returned {got!r} (not an entry) in the interpretation")
                 matching = [reg2[k] for k in candidate_keys(cn, sans) if k in reg2]
                 if got.cert.gen_args is None:
                     if not any(got is e for e in matching):
-                        viol["names"].append((h2, f"returned {got} which matches none of the requested names {cn!r}, {list(sans)}"))
+                        viol["names"].append((h2, f"returned {label(got)} which matches none of the requested names {cn!r}, {list(sans)}"))
                     elif matching and got is not matching[0]:
-                        order_notes.add(f"{cn!r},{list(sans)}: {got} chosen among {matching}")
+                        order_notes.add(f"{cn!r},{list(sans)}: {label(got)} chosen among {[label(e) for e in matching]}")
                 else:
                     if matching:
-                        viol["names"].append((h2, f"generated a certificate although the registered {matching[0]} matches {cn!r}, {list(sans)}"))
+                        viol["names"].append((h2, f"generated a certificate although the registered {label(matching[0])} matches {cn!r}, {list(sans)}"))
                     if got.cert.gen_args != (cn, Names(sans)):
                         viol["names"].append((h2, f"generated entry was built for {got.cert.gen_args!r}, requested {(cn, list(sans))!r}"))
                 # immediate repeat: same entry, nothing changes
                 s3 = s2.copy()
                 again = Machine(ctx, s3).call("get_cert", [cn, list(sans)])
                 if again is not got or s3.canon() != s2.canon():
-                    viol["cache"].append((h2, f"asking again returned {again} instead of {got} (or changed the store)"))
+                    viol["cache"].append((h2, f"asking again returned {label(again) if is_entry(again) else repr(again)} instead of {label(got)} (or changed the store)"))
             # bound and persistence, after every operation
             gen_in_certs = {id(v) for v in s2.certs.values() if v.cert.gen_args is not None}
             if len(gen_in_certs) > cap or len(s2.queue) > cap:
@@ -390,9 +621,9 @@ def _explore(ctx, cap, requests, customs):
                 continue  # do not explore beyond a broken bound (state space would not be finite)
             for k, e in reg2.items():
                 if s2.certs.get(k) is not e:
-                    viol["lost"].append((h2, f"custom registration {k!r} -> {e} is no longer in the store"))
+                    viol["lost"].append((h2, f"custom registration {k!r} -> {label(e)} is no longer in the store"))
                     break
-            key = (s2.canon(), tuple(sorted((k, e.label) for k, e in reg2.items())))
+            key = (s2.canon(), tuple(sorted((k, label(e)) for k, e in reg2.items())))
             if key not in seen:
                 seen.add(key)
                 if len(seen) > 20000:
@@ -405,51 +636,155 @@ def _explore(ctx, cap, requests, customs):
 def _r17_3(ctx):
     store = Store(1)
     fn = ctx.func(F, "CertStore.asterisk_forms")
-    cases = ["a.b.c", "b.c", "c", "www.example.com", "*.b.c", "1.2.3.4", DNS("a.b.c"), DNS("c"), IP("1.2.3.4"), IP("::1"), GN("URI", "http://a.b/c")]
+    cases = ["a.b.c", "b.c", "c", "www.example.com", "*.b.c", "1.2.3.4", DNS("a.b.c"), DNS("c"), IP("1.2.3.4"), IP("::1"), URI("http://a.b/c")]
     bad = []
     for c in cases:
         got = Machine(ctx, store).call("asterisk_forms", [c])
         ctx.cells += 1
         want = ref_forms(c)
-        if list(got) != want or "*" in got:
+        if not isinstance(got, (list, tuple)) or list(got) != want or "*" in got:
             bad.append(f"{c!r}: {got!r}, expected {want!r}")
     ctx.check(not bad, "R17.3", (F, "CertStore.asterisk_forms", fn), "asterisk_forms table",
               "wildcard forms differ from [name, *.<each proper label suffix>] / contain the catch-all '*': " + "; ".join(bad[:3]),
               desc=f"asterisk_forms: {len(cases)} cases", cases=bad)
 
 
+def _methods(ctx):
+    return {f.name: f for f in ctx.model.cls(F, "CertStore").body if isinstance(f, (ast.FunctionDef, ast.AsyncFunctionDef))}
+
+
+ENTRIES = ("get_cert", "add_cert")  # the operations whose histories are explored
+
+
+def _reach(ctx):
+    """CertStore methods (and properties) that the explored operations may run: closure of ENTRIES under `<anything>.<method name>`
+    references (self. / cls. / CertStore. / type(self). - over-approximated: only widens the set of explored code)."""
+    methods = _methods(ctx)
+    for e in ENTRIES:
+        ctx.func(F, "CertStore." + e)
+    seen, todo = set(ENTRIES), list(ENTRIES)
+    while todo:
+        for n in ast.walk(methods[todo.pop()]):
+            if isinstance(n, ast.Attribute) and n.attr in methods and n.attr not in seen:
+                seen.add(n.attr)
+                todo.append(n.attr)
+    return seen
+
+
+def _cap_value_node(ctx):
+    cs = ctx.model.cls(F, "CertStore")
+    vals = []
+    for st in cs.body:
+        if isinstance(st, ast.Assign) and any(isinstance(t, ast.Name) and t.id == CAP_ATTR for t in st.targets):
+            vals.append(st.value)
+        elif isinstance(st, ast.AnnAssign) and isinstance(st.target, ast.Name) and st.target.id == CAP_ATTR and st.value is not None:
+            vals.append(st.value)
+    ctx.require(len(vals) == 1, f"CertStore.{CAP_ATTR} is not defined exactly once in the class body")
+    return vals[0]
+
+
+def _cap_deps(ctx):
+    """(aliases, other module-level constants) the capacity is computed from.  ``STORE_CAP = CERT_STORE_CAP`` (a chain of plain
+    names) is an alias: reads of it are the capacity as well; anything else the expression mentions is a dependency only."""
+    mod = ctx.model.module(F)
+    node = _cap_value_node(ctx)
+    aliases = []
+    while isinstance(node, ast.Name) and len(mod.assigns(node.id)) == 1 and node.id not in aliases:
+        aliases.append(node.id)
+        node = mod.assigns(node.id)[0]
+    deps, todo = [], [node]
+    while todo:
+        for n in ast.walk(todo.pop()):
+            if isinstance(n, ast.Name) and mod.assigns(n.id) and n.id not in deps and n.id not in aliases:
+                deps.append(n.id)
+                todo.extend(mod.assigns(n.id))
+    return aliases, deps
+
+
+_ALIAS_CACHE: dict = {}
+
+
+def _cap_aliases(ctx):
+    hit = _ALIAS_CACHE.get("model")
+    if hit is None or hit[0] is not ctx.model:
+        hit = _ALIAS_CACHE["model"] = (ctx.model, _cap_deps(ctx)[0])
+    return hit[1]
+
+
+MUTATORS = ("append", "appendleft", "extend", "extendleft", "pop", "popleft", "insert", "clear", "remove", "update", "setdefault", "popitem", "__setitem__", "__delitem__", "rotate", "sort", "reverse")
+
+
 def _writers(ctx):
     mod = ctx.model.module(F)
     cs = ctx.model.cls(F, "CertStore")
-    allowed = {"certs": {"__init__", "add_cert", "get_cert", "expire"}, "expire_queue": {"__init__", "expire"}}
-    found = {"certs": set(), "expire_queue": set()}
+    reach = _reach(ctx)
+    allowed = reach | {"__init__"}
+    sites: dict = {}
     for n in ast.walk(cs):
         targets = []
         if isinstance(n, ast.Assign):
-            targets = n.targets
+            targets = [x for t in n.targets for x in (t.elts if isinstance(t, (ast.Tuple, ast.List)) else [t])]
         elif isinstance(n, (ast.AugAssign, ast.AnnAssign)) and getattr(n, "value", None) is not None:
+            targets = [n.target]
+        elif isinstance(n, ast.NamedExpr):
             targets = [n.target]
         elif isinstance(n, ast.Delete):
             targets = n.targets
-        elif isinstance(n, ast.Call) and isinstance(n.func, ast.Attribute) and n.func.attr in ("append", "extend", "pop", "insert", "clear", "remove", "update", "setdefault", "popitem", "__setitem__"):
+        elif isinstance(n, ast.Call) and isinstance(n.func, ast.Attribute) and n.func.attr in MUTATORS:
             targets = [n.func.value]
+        elif isinstance(n, ast.Call) and call_name(n) in ("setattr", "delattr") and len(n.args) >= 2 and isinstance(n.args[1], ast.Constant) and attr_chain(n.args[0]) == "self":
+            targets = [ast.Attribute(value=n.args[0], attr=n.args[1].value, ctx=ast.Store())]
         for t in targets:
             base = t.value if isinstance(t, ast.Subscript) else t
             ch = attr_chain(base)
-            for attr in found:
+            for attr in ("certs", "expire_queue"):
                 if ch == "self." + attr:
                     f = enclosing_func(n)
-                    found[attr].add(f.name if f else "<class>")
-                    ctx.check((f.name if f else "") in allowed[attr], "R17.1", (F, "CertStore." + (f.name if f else "?"), n), f"write to self.{attr} in {f.name if f else '?'}",
-                              f"self.{attr} is modified outside {sorted(allowed[attr])}: the bound / name consistency is no longer decided by the explored methods",
-                              desc=f"self.{attr} written in {f.name if f else '?'}")
-    ctx.require(found["certs"] >= {"add_cert", "get_cert"} and "expire" in found["expire_queue"], f"CertStore writers changed shape: {found}")
-    cap = [s.value for s in cs.body if isinstance(s, ast.Assign) and any(isinstance(t, ast.Name) and t.id == "STORE_CAP" for t in s.targets)]
-    ctx.require(len(cap) == 1, "CertStore.STORE_CAP is not defined exactly once in the class body")
-    ok = isinstance(cap[0], ast.Constant) and isinstance(cap[0].value, int) and not isinstance(cap[0].value, bool) and 1 <= cap[0].value <= 100000
-    ctx.check(ok, "R17.1", (F, "CertStore", cap[0]), "STORE_CAP literal", f"STORE_CAP = {norm(cap[0])} is not a fixed positive capacity", desc=f"STORE_CAP = {norm(cap[0])}")
-    others = [n for n in ast.walk(mod.tree) if isinstance(n, (ast.Assign, ast.AugAssign)) and any(attr_chain(t).endswith(".STORE_CAP") for t in (n.targets if isinstance(n, ast.Assign) else [n.target]))]
-    ctx.check(not others, "R17.1", (F, "<module>", others[0] if others else 0), "STORE_CAP reassigned", "the capacity is changed at run time", desc="STORE_CAP never reassigned in certs.py")
+                    while f is not None and getattr(f, "_parent", None) is not cs:  # a lambda / nested def belongs to its method
+                        f = enclosing_func(f)
+                    sites.setdefault((attr, f.name if f else "<class>"), []).append(n)
+    for (attr, fname), ns in sorted(sites.items()):
+        ctx.check(fname in allowed, "R17.1", (F, "CertStore." + fname, ns[0]), f"write to self.{attr} in {fname}",
+                  f"self.{attr} is modified in {fname}, which is neither __init__ nor run by the explored operations {sorted(reach)}: the bound / name consistency "
+                  "is no longer decided by the exploration",
+                  desc=f"self.{attr} written in {fname} ({len(ns)} site(s); run by the explored operations)")
+    # non-vacuity (raised by check() only when the exploration found nothing: an operation that no longer records its entries is a finding there)
+    vacuous = [f"no method run by get_cert / add_cert writes self.{attr} (store shape not modelled); writers: {sorted(sites)}"
+               for attr in ("certs", "expire_queue") if not any(a == attr and f in reach for a, f in sites)]
+    # the capacity: a fixed positive integer, evaluated (literal, module constant, constant arithmetic), never changed at run time
+    capnode = _cap_value_node(ctx)
+    aliases, deps = _cap_deps(ctx)
+    try:
+        cap = Interp(ctx.model, trusted_modules=_trusted()).class_attr(ClassRef(mod, cs), CAP_ATTR, 0)
+        why = ""
+    except (AnalysisError, Raised) as e:
+        defs = [capnode] + [v for nm in aliases + deps for v in mod.assigns(nm)]
+        if not any(isinstance(x, (ast.Call, ast.Attribute, ast.Subscript)) for d in defs for x in ast.walk(d)):
+            raise
+        cap, why = None, f" (not a constant expression: {e})"
+    ok = isinstance(cap, int) and not isinstance(cap, bool) and 1 <= cap <= 100000
+    ctx.check(ok, "R17.1", (F, "CertStore", capnode), "STORE_CAP literal", f"STORE_CAP = {norm(capnode)} is not a fixed positive capacity{why}",
+              desc=f"STORE_CAP = {norm(capnode)} = {cap!r}")
+    others = []
+    for n in ast.walk(mod.tree):
+        tg = n.targets if isinstance(n, (ast.Assign, ast.Delete)) else [n.target] if isinstance(n, (ast.AugAssign, ast.AnnAssign, ast.NamedExpr)) and getattr(n, "value", None) is not None else []
+        if any(attr_chain(t).endswith("." + CAP_ATTR) for t in tg):
+            others.append(n)
+        if isinstance(n, ast.Call) and call_name(n) == "setattr" and len(n.args) >= 2 and isinstance(n.args[1], ast.Constant) and n.args[1].value == CAP_ATTR:
+            others.append(n)
+        if isinstance(n, ast.Global) and set(n.names) & set(aliases + deps):
+            others.append(n)
+    for nm in aliases + deps:
+        if len(mod.assigns(nm)) != 1 or any(isinstance(n, ast.AugAssign) and isinstance(n.target, ast.Name) and n.target.id == nm and enclosing_func(n) is None for n in ast.walk(mod.tree)):
+            others.append(mod.assigns(nm)[-1])
+    ctx.check(not others, "R17.1", (F, "<module>", others[0] if others else 0), "STORE_CAP reassigned", "the capacity is changed at run time", desc="STORE_CAP (and the constants it is defined by) never reassigned in certs.py")
+    # the exploration substitutes the capacity for STORE_CAP and its aliases; a method reading a constant the capacity is *computed* from would see today's value
+    if deps:
+        methods = _methods(ctx)
+        for fname in sorted(reach):
+            rd = [n.id for n in ast.walk(methods[fname]) if isinstance(n, ast.Name) and n.id in deps]
+            ctx.require(not rd, f"CertStore.{fname} reads {rd[:1]}, from which STORE_CAP is computed (capacity substitution not modelled)")
+    return vacuous
 
 
 def check(ctx):
@@ -458,14 +793,15 @@ def check(ctx):
     ctx.rule("R17.3", "asterisk_forms = [name, *.suffixes...], never '*', non-DNS names verbatim")
     ctx.trust("cryptography x509.GeneralNames: iterable, hashable, equal by content (modelled as a tuple of name records)")
     ctx.assume("dummy_cert / CertStoreEntry / _fix_legacy_sans are stubs recording their arguments (their own obligations: C16)")
-    _writers(ctx)
+    vacuous = _writers(ctx)
     _r17_3(ctx)
     quick = ctx.tier != "thorough"
     requests = (REQUESTS[:3] if quick else REQUESTS) + EXTRA_REQUESTS
     customs = [CUSTOMS[0], CUSTOMS[1], CUSTOMS[2], CUSTOMS[4]] if quick else CUSTOMS  # quick: wildcard by certificate name, catch-all, wildcard by explicit spec name
     fn = ctx.func(F, "CertStore.get_cert")
     ctx.func(F, "CertStore.add_cert")
-    ctx.func(F, "CertStore.expire")
+    if ctx.model.has(F, "CertStore.expire"):  # today's eviction helper; the exploration does not depend on where eviction is written
+        ctx.func(F, "CertStore.expire")
     tot_states = tot_trans = 0
     agg = {"bound": [], "lost": [], "names": [], "cache": []}
     notes = set()
@@ -490,7 +826,9 @@ def check(ctx):
     report("R17.1", "lost", "custom registration lost", "a registered custom certificate disappears from the store", "custom registrations persist")
     report("R17.2", "names", "returned certificate does not correspond to the requested names", "get_cert serves a certificate for other names", f"returned entries match the request on {tot_trans} transitions")
     report("R17.2", "cache", "immediate repeat is not a cache hit", "the same request is answered with a different certificate", "immediate repeat returns the same entry")
-    ctx.expect_instances("R17.1", 11)
+    if vacuous and not ctx.findings:
+        raise AnalysisError(vacuous[0])
+    ctx.expect_instances("R17.1", 8)
     ctx.expect_instances("R17.2", 2)
     ctx.expect_instances("R17.3", 1)
     ctx.sample({"rule": "R17.2", "universe": {"requests": [repr(r) for r in requests], "customs": [c[0] for c in customs]}})
